@@ -19,6 +19,7 @@ use crate::reg::Reg;
 #[cfg(feature = "c02")] pub mod c02;
 #[cfg(feature = "c19")] pub mod c19;
 #[cfg(feature = "c20")] pub mod c20;
+#[cfg(feature = "c15")] pub mod c15;
 
 pub fn register(prop: &str, reg: &mut Reg) {
     match prop {
@@ -40,6 +41,7 @@ pub fn register(prop: &str, reg: &mut Reg) {
         #[cfg(feature = "c02")] "C02" => c02::register(reg),
         #[cfg(feature = "c19")] "C19" => c19::register(reg),
         #[cfg(feature = "c20")] "C20" => c20::register(reg),
+        #[cfg(feature = "c15")] "C15" => c15::register(reg),
         _ => { eprintln!("symx: property {} not available in this build", prop); std::process::exit(2); }
     }
 }
